@@ -239,6 +239,17 @@ def rand_value(rng, unit, decimal_ok):
                            10 ** 20 + 7, 10 ** 15 + 1,
                            rng.randrange(10 ** 15, 10 ** 24) | 1))
     if decimal_ok and unit in ("hours", "minutes", "seconds") and \
+            rng.random() < 0.04:
+        # one float step beside a whole number; and values far below a
+        # microsecond down to the smallest float
+        import math
+        m = rng.choice((1.0, 2.0, 60.0, 435.0, 1000.0, float(2 ** 51)))
+        return rng.choice((
+            math.nextafter(m, 0.0), math.nextafter(m, math.inf),
+            0.7 + 0.2 + 0.1, 4.35 * 100, 2.0 ** 51 + 0.5,
+            1e-16, 2.0 ** -52, 2.0 ** -60, 5e-324, 2.2250738585072014e-308,
+            3e-17))
+    if decimal_ok and unit in ("hours", "minutes", "seconds") and \
             rng.random() < 0.35:
         k = rng.choice((1, 2, 3, 4, 5, 6, 6, 9, 12))
         return rng.choice((n, 0)) + rng.choice(
